@@ -37,7 +37,7 @@ func MainC07(prop, tier string) int {
 }
 
 var recBits = []string{"a", "b", "foo", "bar", " ", "  ", "\t", "é", "日本", ",", "x,y", "1", "A", "-", "ab"}
-var ansiBits = []string{"\x1b[31m", "\x1b[0m", "\x1b[1;32m", "\x1b[m", "\x1b[38;5;100m"}
+var ansiBits = []string{"\x1b[31m", "\x1b[0m", "\x1b[1;32m", "\x1b[m", "\x1b[38;5;100m", "\x0e", "\x0f", "N\x08", "\x0e", "_\x08"}
 
 var ansiRe = regexp.MustCompile("(?:\x1b[\\[()][0-9;:?]*[a-zA-Z@]|\x1b\\][0-9]+[;:][[:print:]]+(?:\x1b\\\\|\x07)|\x1b.|[\x0e\x0f]|.\x08)")
 
